@@ -1,5 +1,6 @@
 import GomlVerif.Lemmas.WtSubst
 import GomlVerif.Lemmas.MonoCollapse
+import GomlVerif.Lemmas.ValTySound
 /-!
 # C03 — acceptance is type-sound: every stage output is well-typed and closed
 
@@ -139,3 +140,129 @@ example : ((collapse 5 (.app (.enum "Opt") [.app (.enum "Opt") [.bool]]) { enumB
   decide +kernel
 
 end Goml.Wt
+
+/-! ## Type soundness of the reference semantics `Sem` w.r.t. `Wt` (round 11)
+
+`ValTy.valTy S v τ` types the VALUES of `Sem` (`Model/ValTy.lean`); `ValTy.envTy S θ ρ Γ` types an environment
+against a context, `θ` instantiating the type parameters of the enclosing generic function (Core is generic, `Sem`
+runs the generic body on concrete values); `ValTy.okProg S P` is the decidable whole-program hypothesis: every
+function satisfies `Wt.wtFn` (the judgement `./check C03` evaluates on every real dump) and lies in the fragment
+`ValTy.okE`.  Proofs: `Lemmas/ValTy{Basic,Ops,Sound}.lean` (induction on the fuel over expressions, operand
+lists, arms and `apply`). -/
+namespace Goml.ValTy
+open Goml Goml.Sem Goml.Wt Goml.Mono
+
+/-- **Preservation, partial.**  In a program whose functions are all `Wt`-consistent and inside the fragment, an
+expression of the fragment that is `Wt`-consistent under `Γ`, evaluated with ANY fuel in an environment of values
+of the types of `Γ` (instantiated by `θ`) — if `Sem.eval` returns a value, the value inhabits the annotation of
+the expression instantiated by `θ`.
+
+Partial: the fragment `okE` = literals, local variables, `let`, `if`, `while`, unary / binary operators (with
+short-circuit `&&` / `||`), tuples and projections, struct / enum constructors, struct field reads, enum field reads
+under an arm that tested the variable for that variant, `match` as Core has it after match compilation, direct calls
+of (generic) top-level functions — the callee annotation must be the instance of the signature that `matchTy` finds —
+and of the printing / `*_to_string` builtins, trait calls on receivers annotated with a concrete type whose dispatch
+row has the annotated signature.  Missing: closures and function values, `Ref` / `Vec` / arrays (need a store
+typing), trait objects, `go`, trait calls on receivers of parametric type (need injectivity of the dispatch key),
+ANF tags.  Progress (a fragment program is never `stuck`) is not proved.
+
+What `Wt` alone was too weak for (each is a decidable conjunct of `okE`, evaluated on every real Core dump):
+(1) `Wt` checks an enum field read against the constructor written in the node, `Sem` reads the field of whatever
+variant the value has — the flow fact comes from the enclosing arm; (2) `Wt.nominalArgs` does not distinguish
+`struct N` from `enum N` (`ctorTyOk`); (3) `Wt` compares a trait call with the TRAIT's method signature; nothing
+relates the dispatch table to the implementing function (`dispatchOk`); (4) callee annotations are compared up
+to the wildcard array length, the fragment asks for the exact instance. -/
+theorem sem_preserves_types_partial (S : Sig) (P : Prog) (hS : SigClosed S) (hP : okProg S P = true) (fuel : Nat)
+    {e : Expr} {ρ : Env} {w : World} {Γ : TyEnv} {K : Know} {θ : Subst} {v : Val} {w' : World}
+    (hfrag : okE P Γ K e = true) (hwt : wt S Γ e = true) (hρ : envTy S θ ρ Γ = true) (hK : KOk K ρ)
+    (hev : eval fuel P ρ w e = .ok v w') : valTy S v (substTy θ (getTy e)) = true := by
+  simp only [wt, List.isEmpty_iff] at hwt
+  exact (sound_all hS hP fuel).expr hfrag hwt hρ hK hev
+
+/-- the same for a call of a top-level function: arguments of the parameter types (at any instantiation `θ` of
+its type parameters) give a result of the declared result type -/
+theorem sem_preserves_types_apply_partial (S : Sig) (P : Prog) (hS : SigClosed S) (hP : okProg S P = true) (fuel : Nat)
+    {name : String} {g : Fn} {θ : Subst} {args : List Val} {w : World} {v : Val} {w' : World}
+    (hg : P.findFn name = some g) (ha : valTys S args (substTys θ (g.params.map (·.2))) = true)
+    (hev : apply fuel P w (.fn name) args = .ok v w') : valTy S v (substTy θ g.ret) = true :=
+  (sound_all hS hP fuel).app hg ha hev
+
+/-- **Static dispatch.**  In a well-typed program of the fragment, whenever the receiver `recv` of
+`ETraitCall Tr::m` evaluates to a value `rv` in an activation whose type arguments `θ` make the receiver's
+annotation a concrete type `τ = substTy θ (getTy recv)` (for a concretely annotated receiver: every `θ`; for a
+receiver of type `T` under a bound `T: Tr`: the `θ` of the instance `mono` creates), the runtime key `Sem`
+dispatches on is the key of `τ`, so the dispatch-table row `Sem` selects — and the function it then applies — is
+the row of the STATIC key, the one `Model/Mono.lean` names (`traitImplFnName tr (substTy σ (getTy recv)) m`). -/
+theorem traitcall_static_dispatch (S : Sig) (P : Prog) (hS : SigClosed S) (hP : okProg S P = true) (fuel : Nat)
+    {recv : Expr} {args : List Expr} {tr m : String} {ty : Ty} {ρ : Env} {w w1 : World} {Γ : TyEnv} {K : Know}
+    {θ : Subst} {rv : Val}
+    (hfrag : okE P Γ K recv = true) (hwt : wt S Γ recv = true) (hρ : envTy S θ ρ Γ = true) (hK : KOk K ρ)
+    (hc : concreteTy (substTy θ (getTy recv)) = true) (hev : eval fuel P ρ w recv = .ok rv w1) :
+    valKey rv = tyKey (substTy θ (getTy recv)) ∧
+    eval (fuel + 1) P ρ w (.traitCall tr m ty recv args) =
+      (evalList fuel P ρ w1 args).andThen (fun vs w2 =>
+        match P.impls.find? (fun i => i.1 == tr && i.2.1 == tyKey (substTy θ (getTy recv)) && i.2.2.1 == m) with
+        | some i => apply fuel P w2 (.fn i.2.2.2) (rv :: vs)
+        | none => .fail (.stuck ("no impl of " ++ tr ++ " for " ++ tyKey (substTy θ (getTy recv)))) w2) := by
+  have hv := sem_preserves_types_partial S P hS hP fuel hfrag hwt hρ hK hev
+  have hk := valKey_of_valTy hc hv
+  refine ⟨hk, ?_⟩
+  rw [eval_traitCall, hev]
+  simp only [Res.andThen_ok]
+  rw [hk]
+  cases evalList fuel P ρ w1 args with
+  | fail f w2 => rfl
+  | ok vs w2 =>
+    simp only [Res.andThen_ok]
+    cases P.impls.find? (fun i => i.1 == tr && i.2.1 == tyKey (substTy θ (getTy recv)) && i.2.2.1 == m) <;> rfl
+
+/-! ### non-vacuity: a generic function, a struct, a trait call on its result -/
+
+def tsSig : Sig :=
+  { fns := [], structs := [{ name := "S", generics := [], fields := [("n", .int 32 true)] }],
+    enums := [{ name := "Opt", generics := ["T"], variants := [("None", []), ("Some", [.param "T"])] }],
+    traits := [{ name := "A", methods := [("foo", .func [.struct "Self"] .string)] }],
+    builtins := [("int32_to_string", .func [.int 32 true] .string), ("string_println", .func [.string] .unit)] }
+
+/-- `fn ident[T](x: T) -> T { x }`, `impl A for S { fn foo(self) -> string { int32_to_string(self.n) } }`,
+    `fn unwrap(o: Opt[int32]) -> int32 { match o { None => 0, Some(v) => v } }`,
+    `fn main() { let s = ident(S { n: unwrap(Some(7)) }); string_println(A::foo(s)) }` -/
+def tsProg : Prog :=
+  { impls := [("A", "S", "foo", "trait_impl#A#S#foo")]
+    fns := [
+      { name := "ident", generics := ["T"], params := [("x", .param "T")], ret := .param "T", body := .var "x" (.param "T") },
+      { name := "trait_impl#A#S#foo", generics := [], params := [("self", .struct "S")], ret := .string,
+        body := .call .string (.var "int32_to_string" (.func [.int 32 true] .string))
+                  [.cget (.struct "S") 0 (.int 32 true) (.var "self" (.struct "S"))] },
+      { name := "unwrap", generics := [], params := [("o", .app (.enum "Opt") [.int 32 true])], ret := .int 32 true,
+        body := .matchE (.int 32 true) (.var "o" (.app (.enum "Opt") [.int 32 true]))
+          [.mk (.constr (.enum "Opt" "None" 0) (.app (.enum "Opt") [.int 32 true]) []) (.prim (.int 32 true 0)),
+           .mk (.constr (.enum "Opt" "Some" 1) (.app (.enum "Opt") [.int 32 true]) [.var "v" (.int 32 true)])
+               (.cget (.enum "Opt" "Some" 1) 0 (.int 32 true) (.var "o" (.app (.enum "Opt") [.int 32 true])))] none },
+      { name := "main", generics := [], params := [], ret := .unit,
+        body := .letE "s" (.call (.struct "S") (.var "ident" (.func [.struct "S"] (.struct "S")))
+                  [.constr (.struct "S") (.struct "S")
+                    [.call (.int 32 true) (.var "unwrap" (.func [.app (.enum "Opt") [.int 32 true]] (.int 32 true)))
+                      [.constr (.enum "Opt" "Some" 1) (.app (.enum "Opt") [.int 32 true]) [.prim (.int 32 true 7)]]]])
+                (.call .unit (.var "string_println" (.func [.string] .unit))
+                  [.traitCall "A" "foo" .string (.var "s" (.struct "S")) []]) }] }
+
+def tsS : Sig := { tsSig with fns := tsProg.fns }
+
+example : okProg tsS tsProg = true := by decide +kernel
+example : wtProg tsS = true := by decide +kernel
+example : (run 100 tsProg).out = "7\n" ∧ (run 100 tsProg).status = "ok" := by decide +kernel
+-- what the fragment refuses: the field read outside the arm that established the variant
+example : okE tsProg [("o", .app (.enum "Opt") [.int 32 true])] []
+    (.cget (.enum "Opt" "Some" 1) 0 (.int 32 true) (.var "o" (.app (.enum "Opt") [.int 32 true]))) = false := by decide +kernel
+-- ... which `Wt` accepts although `Sem` would read a field of `None`
+example : wt tsS [("o", .app (.enum "Opt") [.int 32 true])]
+    (.cget (.enum "Opt" "Some" 1) 0 (.int 32 true) (.var "o" (.app (.enum "Opt") [.int 32 true]))) = true := by decide +kernel
+-- a dispatch row naming a function of another signature is refused
+example : dispatchOk { tsProg with impls := [("A", "S", "foo", "unwrap")] } "A" "foo" (.struct "S") [] .string = false := by
+  decide +kernel
+-- the receiver of a bounded generic function at the instance `T := S`: the key is that of `S`
+example : concreteTy (substTy [("T", .struct "S")] (.param "T")) = true ∧
+    tyKey (substTy [("T", .struct "S")] (.param "T")) = "S" := by decide +kernel
+
+end Goml.ValTy
